@@ -86,6 +86,19 @@ def parsePair (j : Json) : Except String (Nat × String) := do
   let a ← j.getArr?
   return (← (a[0]?.getD Json.null).getNat?, ← (a[1]?.getD Json.null).getStr?)
 
+/-- values (initializers up to id `nv` included) a top-level graph can meet -/
+def cvals (w : World) (nv : Nat) (t : Top) : List Nat :=
+  mentioned t.tr ++ (List.range nv).filter (fun u => match w.initOf u with
+    | some g => (graphsOf t.tr).contains g
+    | none => false)
+
+/-- `TopDisj` pairwise, on the id range of the request -/
+def disjTops (w : World) (nv : Nat) : List Top → Bool
+  | [] => true
+  | t :: ts => ts.all (fun t' => (cvals w nv t).all (fun u => !(cvals w nv t').contains u)
+                                && (allNodes t.body).all (fun n => !(allNodes t'.body).contains n))
+               && disjTops w nv ts
+
 def handle : Handler := fun m j =>
   match m with
   | "names.hist" => some do
@@ -99,7 +112,13 @@ def handle : Handler := fun m j =>
       let (w, nv, nn, ng) ← parseWorld j
       let tops ← (← getArr j "tops").mapM parseTop
       let r := fixModel w tops
-      return obj (worldJ r.1 nv nn ng ++ [("modified", Json.bool r.2.1), ("raised", Json.bool r.2.2)])
+      -- the hypotheses of the pass-level theorems, evaluated on this input
+      let hScoped := tops.all (fun t => scopedB w.inits t.tr [] [])
+      let hClosed := tops.all (fun t => closedB w.initOf t)
+      let hNodup := tops.all (fun t => decide (allNodes t.body).Nodup)
+      return obj (worldJ r.1 nv nn ng ++ [("modified", Json.bool r.2.1), ("raised", Json.bool r.2.2),
+        ("scoped", Json.bool hScoped), ("closed", Json.bool hClosed), ("nodup", Json.bool hNodup),
+        ("disjoint", Json.bool (disjTops w nv tops))])
   | "names.rename" => some do
       let (w, nv, nn, ng) ← parseWorld j
       let pairs ← (← getArr j "pairs").mapM parsePair
